@@ -22,6 +22,15 @@ def cases(draw, tier):
     src = draw(st.one_of(alngen.synthetic(max_n=30 if not big else 80), alngen.synthetic(max_n=8),
                          alngen.to_align(max_n=25 if not big else 70, max_len=200 if not big else 600)))
     # the MSF header embeds the output file's base name: its length is part of the configuration
+    if draw(st.integers(0, 7)) == 0:
+        # a FASTA header longer than the 256-character name column of the block formats: those formats carry its first
+        # 256 characters, consistently in the MSF header and in every block
+        k = draw(st.integers(0, len(src["names"]) - 1))
+        L = draw(st.sampled_from([256, 257, 258, 260, 261, 300, 400]))
+        src = dict(src, names=list(src["names"]))
+        src["names"][k] = (src["names"][k] + "_" + "h" * 400)[:L]
+        if len(set(n[:255] for n in src["names"])) != len(src["names"]):
+            src["names"][k] = ("%d" % k + src["names"][k])[:L]
     return {"src": src, "outname_len": draw(st.sampled_from([0, 0, 0, 0, 60, 150, 185, 190, 193, 195, 200, 230, 250]))}
 
 
@@ -32,6 +41,8 @@ def strategy(tier):
 def judge_file(fmt, text, names, rows, kind):
     """-> None or description"""
     L = len(rows[0])
+    if fmt != "fasta":
+        names = [n[:256] for n in names]        # MSA_NAME_LEN: what the block formats can carry of a name
     try:
         if fmt == "fasta":
             recs = formats.parse_fasta(text, strict_wrap=60)
@@ -115,6 +126,8 @@ def check(case):
         cl.append("width>60")
     if max(len(x) for x in tn) > 60:
         cl.append("name>60")
+    if max(len(x) for x in tn) > 256:
+        cl.append("name>256")
     if case.get("outname_len", 0) >= 185:
         cl.append("long_output_file_name")
     for k, fmt in enumerate(("fasta", "clu", "msf")):
